@@ -13,14 +13,17 @@ static std::string dec_buf(bool b64, const Args &a)
         return o.str();
     }
     size_t osize = u64(a[1]);
-    // exact-size output block: a write past output_size hits the ASan redzone
-    unsigned char *out = static_cast<unsigned char *>(malloc(osize ? osize : 1));
-    memset(out, 0xA5, osize ? osize : 1);
+    // exact-size output block: a write past output_size hits the ASan redzone.  For an output_size that cannot be
+    // allocated (callers passing SIZE_MAX as "unbounded") the real block has the size of the input, which bounds
+    // the decoded length; the library is still told the huge size
+    size_t real = osize > (size_t(1) << 30) ? in.size() + 1 : osize;
+    unsigned char *out = static_cast<unsigned char *>(malloc(real ? real : 1));
+    memset(out, 0xA5, real ? real : 1);
     ST_ssize_t r = b64 ? ST::base64_decode(s, out, osize) : ST::hex_decode(s, out, osize);
     o << "ret=" << (long long)r;
     if (r >= 0) {
         bool rest = true;
-        for (size_t i = size_t(r); i < osize; ++i) rest = rest && out[i] == 0xA5;
+        for (size_t i = size_t(r); i < real; ++i) rest = rest && out[i] == 0xA5;
         o << " data=" << hex(reinterpret_cast<char *>(out), size_t(r)) << " rest=" << (rest ? 1 : 0);
     }
     free(out);
